@@ -1,3 +1,4 @@
+import Hannibal.Props.C02CCurrent
 import Hannibal.Props.C02Current
 import Hannibal.Props.C02Guarded
 #print axioms Hannibal.C02_holds
@@ -7,3 +8,5 @@ import Hannibal.Props.C02Guarded
 #print axioms Hannibal.C02orig_holds
 #print axioms Hannibal.C02orig_current
 #print axioms Hannibal.C02g_holds
+#print axioms Hannibal.C02c_holds
+#print axioms Hannibal.C02c_current
